@@ -336,6 +336,9 @@ func VerifyDualProofV2(proof *DualProofV2, sourceTxID, targetTxID uint64, source
 	}
 
 	if sourceTxID == targetTxID {
+		if sourceAlh != targetAlh {
+			return fmt.Errorf("%w: different accumulated hashes for the same transaction", ErrIllegalArguments)
+		}
 		return nil
 	}
 
